@@ -84,6 +84,11 @@ CHECKS = {
          "Expressions with 1..5 einsums/matmuls/dots over trees of + - * / (arrays and Python/NumPy scalars in either position), powers, math functions, indexing, reshapes, transposes and unit-axis broadcasts; the complete policy product (<= 125 quick / 400 thorough, otherwise all single-einsum policies plus random mixtures) is applied through the real callback interface, each result evaluated and compared (exact for integers, Monte-Carlo-arithmetic + scale-aware re-association tolerance otherwise); rewrite_einsums_with_no_broadcasts is compared the same way and its result must not broadcast any unit axis. Violations are keyed by the operation on top of the distributed operand.",
          "RuntimeError('Cannot distribute composed einsums') is the documented refusal. pad/astype/roll lambdas (outside the quantifier; the raiser answers 'unknown' and the mapper does not catch it) are not generated -- noted in DESIGN.md §8.",
          "DESIGN.md §3 C06"),
+ "C12": ("exploration",
+         "differential runtime oracle: trace_call of a generated function under random call conventions vs the direct application of the same Python function (declared shape/dtype, reference evaluation), inlining monitor (no Call node left, values, structural inverse), sampled compiled execution; directed same-typed-parameter cases",
+         "Programs of C01's space become the body of a Python function over their placeholder inputs (wrapped data stays inside the body). Each is called directly and through trace_call with positional / keyword / mixed arguments, one of the three return conventions, nesting depth 1-3, repeated calls (same definition re-called, or re-traced) with other arguments, argument expressions that share nodes, and caller placeholders named exactly like the parameter placeholders trace_call invents. Monitors: results have the direct application's shape/dtype; the call graph evaluates bitwise like the direct application; after tag_all_calls_to_be_inlined + inline_calls no Call node is left (reflective walk and get_num_call_sites), output names and values are unchanged and the inlined graph is structurally the direct application; one in 6-12 is compiled. 162 directed cases with three same-typed parameters in a non-commutative body cover every convention x depth x naming.",
+         "Functions closing over caller placeholders are outside trace_call's contract: every placeholder input is a parameter. vf.oracle.refeval's Call rule (fresh environment of evaluated bindings) is the meaning of a call.",
+         "DESIGN.md §3 C12"),
 }
 
 NOT_YET = {
